@@ -403,12 +403,55 @@ func rulePatternOneInterpreter(c *Ctx) {
 	}
 	// pattern flows only into glob.Compile
 	sinks := 0
-	checkFlow := func(fn *ssa.Function, pat ssa.Value, label string) {
-		if pat.Referrers() == nil {
-			return
+	// flow: how the pattern value is used; helpers of the repository that receive it are followed
+	// (a cache keyed by the pattern string hands it on to glob.Compile on a miss).
+	var flow func(pat ssa.Value, label string, depth int) (okAll, toGlob bool)
+	flow = func(pat ssa.Value, label string, depth int) (okAll, toGlob bool) {
+		okAll = true
+		if pat.Referrers() == nil || depth > 3 {
+			return okAll, false
 		}
-		okAll := true
-		toGlob := false
+		var lenUses []ssa.Value
+		var globSites []ssa.Instruction
+		defer func() {
+			for _, lv := range lenUses {
+				if lv.Referrers() == nil {
+					continue
+				}
+				for _, u := range *lv.Referrers() {
+					cmp, isCmp := u.(*ssa.BinOp)
+					if !isCmp || cmp.Referrers() == nil {
+						continue
+					}
+					for _, uu := range *cmp.Referrers() {
+						iff, isIf := uu.(*ssa.If)
+						if !isIf {
+							continue
+						}
+						b := iff.Block()
+						for _, sc := range b.Succs {
+							reached := false
+							for _, site := range globSites {
+								sb := site.Block()
+								other := false
+								for _, s2 := range b.Succs {
+									if s2 != sc && (s2 == sb || s2.Dominates(sb)) && len(s2.Preds) == 1 {
+										other = true
+									}
+								}
+								if ((sc == sb || sc.Dominates(sb)) && len(sc.Preds) == 1) || (!other && b.Dominates(sb)) {
+									reached = true
+								}
+							}
+							if !reached {
+								okAll = false
+								c.bad(rid, label+"/length-decides", c.P.instrPos(iff), "the length of the client's pattern decides whether it is handed to the glob compiler at all: on one side of this test the pattern is not compiled")
+							}
+						}
+					}
+				}
+			}
+		}()
 		for _, r := range *pat.Referrers() {
 			switch x := r.(type) {
 			case *ssa.DebugRef:
@@ -416,15 +459,60 @@ func rulePatternOneInterpreter(c *Ctx) {
 				nme := calleeName(x.Common())
 				if nme == pkgGlob+".Compile" || nme == pkgGlob+".MustCompile" {
 					toGlob = true
+					globSites = append(globSites, r)
 					continue
 				}
 				if strings.HasPrefix(nme, "fmt.") || strings.Contains(nme, "Error") {
 					continue
 				}
+				if b, isB := x.Common().Value.(*ssa.Builtin); isB && b.Name() == "len" {
+					// its size may bound a cache; the text is not looked at — but the size must not
+					// decide whether the pattern is compiled at all: checked below against the sites
+					// at which the pattern goes on to the glob compiler
+					if v, isV := r.(ssa.Value); isV {
+						lenUses = append(lenUses, v)
+					}
+					continue
+				}
+				if nme == "strings.Clone" {
+					if v, isV := r.(ssa.Value); isV {
+						ok2, g2 := flow(v, label, depth+1)
+						okAll = okAll && ok2
+						toGlob = toGlob || g2
+					}
+					continue
+				}
+				if h := staticCallee(x.Common()); h != nil && h.Blocks != nil && inRepo(h) && inProd(h) && !x.Common().IsInvoke() {
+					followed := false
+					for k, a := range x.Common().Args {
+						if a == pat && k < len(h.Params) {
+							followed = true
+							ok2, g2 := flow(h.Params[k], label+">"+h.Name(), depth+1)
+							okAll = okAll && ok2
+							toGlob = toGlob || g2
+							if g2 {
+								globSites = append(globSites, r)
+							}
+						}
+					}
+					if followed {
+						continue
+					}
+				}
 				okAll = false
 				c.bad(rid, label+"/other-use", c.P.instrPos(r), "the client's pattern is also interpreted by "+nme+" (outside the glob compiler): KEYS/SCAN can select keys the glob does not")
 			case *ssa.MakeInterface:
 				// passed to error formatting
+			case *ssa.Lookup:
+				if x.Index != pat {
+					okAll = false
+					c.bad(rid, label+"/other-use", c.P.instrPos(r), "the client's pattern is indexed outside the glob compiler")
+				} // else: the key of a map lookup (whole-string equality)
+			case *ssa.MapUpdate:
+				if x.Key != pat {
+					okAll = false
+					c.bad(rid, label+"/other-use", c.P.instrPos(r), "the client's pattern is stored as a map value outside the glob compiler")
+				}
 			case *ssa.Phi, *ssa.Store:
 				// conservative
 				okAll = false
@@ -434,6 +522,13 @@ func rulePatternOneInterpreter(c *Ctx) {
 				c.bad(rid, label+"/other-use", c.P.instrPos(r), "the client's pattern is inspected outside the glob compiler ("+r.String()+")")
 			}
 		}
+		return okAll, toGlob
+	}
+	checkFlow := func(fn *ssa.Function, pat ssa.Value, label string) {
+		if pat.Referrers() == nil {
+			return
+		}
+		okAll, toGlob := flow(pat, label, 0)
 		if okAll {
 			sinks++
 			c.check(toGlob, rid, label, c.P.pos(fn.Pos()), "the pattern flows only into glob.Compile", "the client's pattern never reaches glob.Compile")
@@ -459,6 +554,19 @@ func rulePatternOneInterpreter(c *Ctx) {
 			}
 			if owner, f, _, ok := fieldOf(st.Addr); ok && owner == "redis.ScanOption" && f == "MatchPattern" {
 				v := strip(st.Val)
+				// Copy() yields an equal expression; a package-level pattern is what its initialiser compiled
+				for k := 0; k < 3; k++ {
+					if call, ok := v.(*ssa.Call); ok && calleeName(call.Common()) == "(*regexp.Regexp).Copy" {
+						v = strip(call.Common().Args[0])
+					}
+					if ld, ok := v.(*ssa.UnOp); ok && ld.Op == token.MUL {
+						if g, ok := ld.X.(*ssa.Global); ok {
+							if iv := globalInitValue(g); iv != nil {
+								v = iv
+							}
+						}
+					}
+				}
 				if ex, ok := v.(*ssa.Extract); ok {
 					if call, ok := ex.Tuple.(*ssa.Call); ok && calleeName(call.Common()) == pkgGlob+".Compile" {
 						pat := strip(call.Common().Args[0])
@@ -494,7 +602,7 @@ func rulePatternOneInterpreter(c *Ctx) {
 			case "MatchString", "Match", "MatchReader":
 				verdicts++
 				c.analysed(fn)
-			case "String":
+			case "String", "Copy":
 			default:
 				otherUses++
 				c.bad("R17.e", fmt.Sprintf("%s/%s", fnName(fn), nme), c.P.instrPos(ins), "the compiled glob is consulted through "+nme+" instead of Match*: its result is not the whole-key verdict")
